@@ -295,6 +295,8 @@ def gen_primitives(ctx, cs, n):
     for L in lens[:max(n, len(BOUNDARY))]:
         m = rbytes(rng, L)
         cs.add("sha256", "sha256 " + hx(m), hashlib.sha256(m).hexdigest())
+        # FIPS 180-4 §5.1.1 written out: message, 0x80, fewest zero bytes to 56 mod 64, 64-bit big-endian bit length
+        cs.add("sha padding", "pad " + hx(m), hx(m + b"\x80" + b"\x00" * ((55 - len(m)) % 64) + (8 * len(m)).to_bytes(8, "big")))
         cs.add("sha256d", "sha256d " + hx(m), r_sha256d(m).hex())
         cs.add("sha1", "sha1 " + hx(m), hashlib.sha1(m).hexdigest())
         s = rbytes(rng, rng.choice([0, 1, 9, 10, 11, 99, 100, 101, L % 1200]))
@@ -651,7 +653,11 @@ def make_object_history(rng):
         ni = rng.randrange(len(nodes))
         calls.insert(rng.randrange(len(calls) + 1), ["node", ni, m, a])
         calls.append(["node", ni, m, b])
-    return {"type": "objects", "secrets": [_h(x) for x in secrets], "servers": [[_h(x) for x in sv] for sv in servers],
+    rekeys = [rbytes(rng, 16) for _ in range(rng.choice([0, 1, 2]))]
+    for k in range(len(rekeys)):
+        calls.insert(rng.randrange(len(calls) + 1), ["node", rng.randrange(len(nodes)), "init_from_cap", k])
+    return {"type": "objects", "rekeys": [_h(x) for x in rekeys],
+            "secrets": [_h(x) for x in secrets], "servers": [[_h(x) for x in sv] for sv in servers],
             "nodes": [{"wk": _h(nd["wk"]), "fp": _h(nd["fp"]), "holder": nd["holder"], "mdmf": nd["mdmf"]} for nd in nodes],
             "checkers": [{"key": _h(c["key"]), "fp": _h(c["fp"]), "holder": c["holder"]} for c in checkers], "calls": calls}
 
@@ -674,32 +680,62 @@ def run_object_history(ctx, cs, H):
         si = REF1["storage_index_hash"](_u(c["key"]))
         checkers.append(Checker(uri.CHKFileVerifierURI(si, _u(c["fp"]), 3, 10, 1234), [], False, True, holders[c["holder"]], None))
         csi.append(si)
+    cur_wk = [_u(nd["wk"]) for nd in H["nodes"]]
+    rekeys = [_u(x) for x in H.get("rekeys", [])]
+    node_hist = [[] for _ in nodes]        # per object: (driver op token, implementation answer, spec answer)
+    chk_hist = [[] for _ in checkers]
     for step, (what, i, meth, j) in enumerate(H["calls"]):
         args = {"history": H, "step": step}
+        if what == "node" and meth == "init_from_cap":
+            # the node is pointed at another cap: from here on its secrets are those of the new write key
+            nd = H["nodes"][i]
+            cls = uri.WriteableMDMFFileURI if nd["mdmf"] else uri.WriteableSSKFileURI
+            nodes[i].init_from_cap(cls(rekeys[j], _u(nd["fp"])))
+            cur_wk[i] = rekeys[j]
+            nsi[i] = REF1["ssk_storage_index_hash"](REF1["ssk_readkey_hash"](rekeys[j]))
+            node_hist[i].append(("i:" + hx(rekeys[j]), "-", "-"))
+            ctx.count("history:init_from_cap")
+            continue
         sid, lease, we = (_u(x) for x in H["servers"][j])
         if what == "node":
             nd = H["nodes"][i]
-            secret, wk = secrets[nd["holder"]], _u(nd["wk"])
+            secret, wk = secrets[nd["holder"]], cur_wk[i]
             impl = guard(getattr(nodes[i], meth), servers[j])
             if meth == "get_write_enabler":
-                line, ref = "f2 ssk_write_enabler_hash %s %s" % (hx(wk), hx(we)), guard(_r_we, wk, we)
+                line, ref, t = "f2 ssk_write_enabler_hash %s %s" % (hx(wk), hx(we)), guard(_r_we, wk, we), "w"
             elif meth == "get_renewal_secret":
-                line, ref = "renew %s %s %s" % (hx(secret), hx(nsi[i]), hx(lease)), guard(r_renew, secret, nsi[i], lease)
+                line, ref, t = "renew %s %s %s" % (hx(secret), hx(nsi[i]), hx(lease)), guard(r_renew, secret, nsi[i], lease), "r"
             else:
-                line, ref = "cancel %s %s %s" % (hx(secret), hx(nsi[i]), hx(lease)), guard(r_cancel, secret, nsi[i], lease)
+                line, ref, t = "cancel %s %s %s" % (hx(secret), hx(nsi[i]), hx(lease)), guard(r_cancel, secret, nsi[i], lease), "c"
             cs.add("history MutableFileNode." + meth, line, impl, ref, args=args)
+            node_hist[i].append((t + ":" + srv_tok(sid, lease, we, 0), impl, ref))
         elif what == "checker":
             secret = secrets[H["checkers"][i]["holder"]]
             impl = guard(getattr(checkers[i], meth), lease)
             if meth == "_get_renewal_secret":
-                line, ref = "renew %s %s %s" % (hx(secret), hx(csi[i]), hx(lease)), guard(r_renew, secret, csi[i], lease)
+                line, ref, t = "renew %s %s %s" % (hx(secret), hx(csi[i]), hx(lease)), guard(r_renew, secret, csi[i], lease), "r"
             else:
-                line, ref = "cancel %s %s %s" % (hx(secret), hx(csi[i]), hx(lease)), guard(r_cancel, secret, csi[i], lease)
+                line, ref, t = "cancel %s %s %s" % (hx(secret), hx(csi[i]), hx(lease)), guard(r_cancel, secret, csi[i], lease), "c"
             cs.add("history immutable.Checker." + meth, line, impl, ref, args=args)
+            chk_hist[i].append((t + ":" + hx(lease), impl, ref))
         else:
             name = "my_renewal_secret_hash" if meth == "get_renewal_secret" else "my_cancel_secret_hash"
             cs.add("history SecretHolder." + meth, "f1 %s %s" % (name, hx(secrets[i])), guard(getattr(holders[i], meth)),
                    guard(REF1[name], secrets[i]), args=args)
+    # each object's whole history through the object machines of Tahoe/Crypto/Objects.lean
+    for i, hist in enumerate(node_hist):
+        if hist:
+            nd = H["nodes"][i]
+            cs.add("history MutableFileNode (object machine)",
+                   "nodehist %s %s %s" % (hx(secrets[nd["holder"]]), nd["wk"] if nd["wk"] != "" else "-", " ".join(t for (t, _a, _b) in hist)),
+                   ",".join(a for (_t, a, _b) in hist), ",".join(b for (_t, _a, b) in hist), args={"history": H, "step": "node %d" % i},
+                   signature="spec-mismatch:history MutableFileNode (whole history)")
+    for i, hist in enumerate(chk_hist):
+        if hist:
+            cs.add("history immutable.Checker (object machine)",
+                   "chkhist %s %s %s" % (hx(secrets[H["checkers"][i]["holder"]]), hx(csi[i]), " ".join(t for (t, _a, _b) in hist)),
+                   ",".join(a for (_t, a, _b) in hist), ",".join(b for (_t, _a, b) in hist), args={"history": H, "step": "checker %d" % i},
+                   signature="spec-mismatch:history immutable.Checker (whole history)")
 
 
 def srv_tok(sid, lease, we, mx):
@@ -1579,7 +1615,10 @@ def fixed_corpus(ctx, cs):
         calls += [["node", 1, m, j] for j in (1, 0, 4, 3, 2, 5, 1, 0)]      # node 1: new announcement first
     for m in ("_get_renewal_secret", "_get_cancel_secret"):
         calls += [["checker", 0, m, j] for j in (0, 1, 2, 0)]
-    Ha = {"type": "objects", "secrets": [_h(_pat(0x80, 32, 3))], "servers": [[_h(x) for x in sv] for sv in servers],
+    calls.append(["node", 0, "init_from_cap", 0])                            # node 0 pointed at another cap …
+    for m in ("get_renewal_secret", "get_cancel_secret", "get_write_enabler"):
+        calls += [["node", 0, m, j] for j in (0, 1)] + [["node", 1, m, 0]]   # … its answers follow, node 1's do not
+    Ha = {"type": "objects", "rekeys": [_h(wk2)], "secrets": [_h(_pat(0x80, 32, 3))], "servers": [[_h(x) for x in sv] for sv in servers],
           "nodes": [{"wk": _h(wk1), "fp": _h(fp), "holder": 0, "mdmf": False}, {"wk": _h(wk1), "fp": _h(fp), "holder": 0, "mdmf": True}],
           "checkers": [{"key": _h(wk2), "fp": _h(fp), "holder": 0}], "calls": calls}
     attempt(ctx, "corpus:reannounced", lambda: run_object_history(ctx, cs, Ha))
